@@ -221,6 +221,7 @@ func (a *batchConn) batchSendLoop(cfg config.TiKVClient) {
 		if a.reqBuilder.len() == 0 {
 			// the conn is closed or recycled.
 			a.inspectPendingRequests(headRecvTime)
+			a.failQueuedAsyncRequestsOnClose()
 			return
 		}
 
@@ -260,6 +261,29 @@ func (a *batchConn) batchSendLoop(cfg config.TiKVClient) {
 		if sendLoopEndTime.Sub(lastPendingInspectAt) >= batchRequestInspectInterval {
 			a.inspectPendingRequests(sendLoopEndTime)
 			lastPendingInspectAt = sendLoopEndTime
+		}
+	}
+}
+
+// failQueuedAsyncRequestsOnClose is called when the send loop exits. If the batchConn has been closed, the requests
+// that are still queued in batchCommandsCh will never be sent. Synchronous callers notice `closed` themselves, but the
+// callback of an asynchronous request would never be invoked, so fail them here.
+func (a *batchConn) failQueuedAsyncRequestsOnClose() {
+	select {
+	case <-a.closed:
+	default:
+		return
+	}
+	err := errors.New("batchConn closed")
+	for {
+		select {
+		case entry := <-a.batchCommandsCh:
+			if entry != nil && entry.async() {
+				atomic.StoreInt32(&entry.canceled, 1)
+				entry.error(err)
+			}
+		default:
+			return
 		}
 	}
 }
